@@ -68,10 +68,13 @@ DeclLen(f, d) == (IF Loose(f) THEN 1 ELSE 0) + 1 + (IF Len(d.rels) > 0 THEN 1 + 
 Lure(f) == "lure" \in DOMAIN f /\ f.lure
 \* f.brace: the body of every condition holds an opening brace inside a string literal (the body ends at the first `}`, there is no nesting)
 Brace(f) == "brace" \in DOMAIN f /\ f.brace
+\* f.plain: the condition bodies do not carry the number of the file (two files of one module that declare the SAME condition,
+\* word for word, still declare it twice)
+PlainBody(f) == "plain" \in DOMAIN f /\ f.plain
 CondText(f, c, k, next) == (IF Loose(f) THEN Eol(f) ELSE "") \o "condition" \o Gap(f) \o c \o (IF Loose(f) THEN " (x: int) {" ELSE "(x: int) {") \o Eol(f)
                            \o (IF Lure(f) THEN "  condition " \o next \o " (x) ||" \o Eol(f) ELSE "")
                            \o (IF Brace(f) THEN "  \"{\" != \"\" &&" \o Eol(f) ELSE "")
-                           \o "  x < " \o ToString(k) \o Eol(f) \o "}" \o Eol(f)
+                           \o "  x < " \o (IF PlainBody(f) THEN "100" ELSE ToString(k)) \o Eol(f) \o "}" \o Eol(f)
 CondLen(f) == (IF Loose(f) THEN 4 ELSE 3) + (IF Lure(f) THEN 1 ELSE 0) + (IF Brace(f) THEN 1 ELSE 0)
 RECURSIVE DeclsText(_, _, _, _)
 DeclsText(f, ds, i, k) == IF i > Len(ds) THEN "" ELSE DeclText(f, ds[i], k) \o DeclsText(f, ds, i + 1, k)
